@@ -67,8 +67,8 @@ def Code.allSpans : Code → Prop
   | .unitVariant sp v path push => P sp ∧ v.allSpans P ∧ path.allSpans P ∧ push.allSpans P
   | .enumTuple sp v path binders body push =>
     P sp ∧ v.allSpans P ∧ path.allSpans P ∧ (∀ b ∈ binders, b.allSpans P) ∧ body.allSpans ∧ push.allSpans P
-  | .structNamed sp v path fields _ body push =>
-    P sp ∧ v.allSpans P ∧ path.allSpans P ∧ (∀ f ∈ fields, f.allSpans P) ∧ body.allSpans ∧ push.allSpans P
+  | .structNamed sp v path fields fsps _ body push =>
+    P sp ∧ v.allSpans P ∧ path.allSpans P ∧ ((∀ f ∈ fields, f.allSpans P) ∧ (∀ s ∈ fsps, P s)) ∧ body.allSpans ∧ push.allSpans P
   | .tuple v binders body => v.allSpans P ∧ (∀ b ∈ binders, b.allSpans P) ∧ body.allSpans
   | .slice v parts body push => v.allSpans P ∧ (∀ b ∈ parts, b.allSpans P) ∧ body.allSpans ∧ push.allSpans P
   | .regex sp v _ push | .mapLen sp v _ push => P sp ∧ v.allSpans P ∧ push.allSpans P
@@ -219,13 +219,21 @@ theorem binders_allSpans (hcs : P Sp.callSite) {sp : Sp} (hsp : P sp) (bs : List
   obtain ⟨b, hb, rfl⟩ := List.mem_map.1 hx
   exact Binder.toks_allSpans hcs b (h b hb)
 
-theorem fields_allSpans (hcs : P Sp.callSite) {sp : Sp} (hsp : P sp) (fs : List FieldName) (h : ∀ f ∈ fs, f.allSpans P) :
-    Toks.allSpans P (sepBy (tq sp ",") (fs.map fun f => f.toks ++ tq sp ":" ++ (Name.field f).toks)) := by
+theorem FieldName.toksAt_allSpans {s : Sp} (hs : P s) (f : FieldName) (h : f.allSpans P) : Toks.allSpans P (f.toksAt s) := by
+  cases f with
+  | ident i => intro t ht; simp only [FieldName.toksAt, List.mem_singleton] at ht; subst ht; exact h
+  | index n => exact tq_allSpans hs _
+
+theorem fields_allSpans (hcs : P Sp.callSite) {sp : Sp} (hsp : P sp) (fs : List FieldName) (ss : List Sp)
+    (h : (∀ f ∈ fs, f.allSpans P) ∧ (∀ s ∈ ss, P s)) :
+    Toks.allSpans P (sepBy (tq sp ",") ((fs.zip ss).map fun x => x.1.toksAt x.2 ++ tq sp ":" ++ (Name.field x.1).toks)) := by
   refine sepBy_allSpans (tq_allSpans hsp _) ?_
   intro x hx
-  obtain ⟨f, hf, rfl⟩ := List.mem_map.1 hx
-  exact append_allSpans (append_allSpans (FieldName.toks_allSpans hcs f (h f hf)) (tq_allSpans hsp _))
-    (Name.toks_allSpans hcs (.field f) (h f hf))
+  obtain ⟨⟨f, s⟩, hf, rfl⟩ := List.mem_map.1 hx
+  have hf1 := h.1 f (List.of_mem_zip hf).1
+  have hs1 := h.2 s (List.of_mem_zip hf).2
+  exact append_allSpans (append_allSpans (FieldName.toksAt_allSpans hs1 f hf1) (tq_allSpans hsp _))
+    (Name.toks_allSpans hcs (.field f) hf1)
 
 theorem restMarker_allSpans (hcs : P Sp.callSite) (rest : Bool) (fs : List FieldName) :
     Toks.allSpans P (if !rest then [] else if fs.isEmpty then tq cs ". ." else tq cs ", . .") := by
@@ -250,7 +258,7 @@ macro "spans_auto" hcs:ident hv:ident : tactic => `(tactic|
     | exact VExpr.toks_allSpans $hcs $hv _ (by assumption)
     | exact Push.toks_allSpans $hcs $hv _ (by assumption)
     | exact binders_allSpans $hcs (by assumption) _ (by assumption)
-    | exact fields_allSpans $hcs (by assumption) _ (by assumption)
+    | exact fields_allSpans $hcs (by assumption) _ _ (by assumption)
     | exact restMarker_allSpans $hcs _ _
     | exact predRefs_allSpans $hcs _
     | exact supportPath_allSpans (by assumption)
@@ -296,7 +304,7 @@ theorem Code.toks_allSpans (hcs : P Sp.callSite) {value : Toks} (hv : Toks.allSp
     have hcs' : P cs := hcs
     have := Codes.toks_allSpans hcs hv body hbody
     simp only [Code.toks]; spans_auto hcs hv
-  | .structNamed sp v path fields rest body push, h => by
+  | .structNamed sp v path fields fsps rest body push, h => by
     obtain ⟨hsp, hv', ⟨_, hpath⟩, hf, hbody, hp⟩ := h
     have hcs' : P cs := hcs
     have := Codes.toks_allSpans hcs hv body hbody
@@ -487,6 +495,31 @@ theorem rootNames_allSpans : ∀ (items : Items), items.allSpans P → ∀ f ∈
       · exact rootNames_allSpans tl htl f h'
     · exact rootNames_allSpans tl htl f h
 
+theorem dedupSps_subset : ∀ (fs : List FieldName) (ss : List Sp) (seen : List FieldName) (s : Sp),
+    s ∈ dedupSps fs ss seen → s ∈ ss
+  | [], _, _, _, h => by simp [dedupSps] at h
+  | _ :: _, [], _, _, h => by simp [dedupSps] at h
+  | f :: fs, s' :: ss, seen, s, h => by
+    unfold dedupSps at h
+    split at h
+    · exact List.mem_cons_of_mem _ (dedupSps_subset fs ss seen s h)
+    · rcases List.mem_cons.1 h with rfl | h'
+      · simp
+      · exact List.mem_cons_of_mem _ (dedupSps_subset fs ss _ s h')
+
+theorem rootSps_allSpans (hcs : P Sp.callSite) : ∀ (items : Items), items.allSpans P → ∀ s ∈ items.rootSps, P s
+  | .nil, _, s, h => by simp [Items.rootSps] at h
+  | .cons ops key p tl, hi, s, h => by
+    unfold Items.rootSps at h
+    obtain ⟨ho, _, _, htl⟩ := hi
+    split at h
+    · rcases List.mem_cons.1 h with rfl | h'
+      · cases ops with
+        | none => exact hcs
+        | some o => exact rootFieldSp_allSpans hcs o ho
+      · exact rootSps_allSpans hcs tl htl s h'
+    · exact rootSps_allSpans hcs tl htl s h
+
 theorem Codes.append_allSpans : ∀ (a b : Codes), a.allSpans P → b.allSpans P → (a.append b).allSpans P
   | .nil, _, _, hb => hb
   | .cons c tl, b, ha, hb => ⟨ha.1, Codes.append_allSpans tl b ha.2 hb⟩
@@ -545,7 +578,8 @@ theorem expandPat_allSpans (hcs : P Sp.callSite) (v : VExpr) (hv : v.allSpans P)
   | .slice id sp elems, h =>
     ⟨hv, sliceParts_allSpans elems 0, expandSliceElems_allSpans hcs elems 0 h, hcs, hv⟩
   | .struct id (some path) fields rest, h =>
-    ⟨h.1.1, hv, h.1, fun f hf => rootNames_allSpans fields h.2 f (dedupNames_subset _ _ f hf),
+    ⟨h.1.1, hv, h.1, ⟨fun f hf => rootNames_allSpans fields h.2 f (dedupNames_subset _ _ f hf),
+        fun s hs => rootSps_allSpans hcs fields h.2 s (dedupSps_subset _ _ _ s hs)⟩,
       expandFields_allSpans hcs fields h.2, dbgPush_allSpans h.1.1 _ _ hv⟩
   | .struct id none fields rest, h => expandWildFields_allSpans hcs v hv fields h
   | .set id sp elems rest, h => ⟨hv, expandSetElems_allSpans hcs elems h⟩
